@@ -79,6 +79,45 @@ Definition mvs_step (s : mvs) (o : sop) : mvs * sout :=
     end
   end.
 
+(* ---------------- targets of translator/gen_stream.py ---------------------- *)
+(* result of one MemoryviewStream method: value + new position, or an exception kind (2 ValueError, 4 TypeError) *)
+Inductive sres :=
+| SRet (out : sout) (newpos : Z)
+| SRaise (kind : Z).
+
+(* a POSIX file handle as used by FSStoragePlugin (modelled, not verified): content, position, append flag *)
+Inductive fmode := MRead | MTrunc | MAppend | MUpdate.
+Record fh := { fh_content : bytes; fh_pos : Z; fh_append : bool }.
+
+Definition fh_open (m : fmode) (old : option bytes) : fh :=
+  let d := match old with Some d => d | None => [] end in
+  match m with
+  | MRead | MUpdate => {| fh_content := d; fh_pos := 0; fh_append := false |}
+  | MTrunc => {| fh_content := []; fh_pos := 0; fh_append := false |}
+  | MAppend => {| fh_content := d; fh_pos := zlen d; fh_append := true |}
+  end.
+
+Definition fh_seek (f : fh) (off : Z) : fh :=
+  {| fh_content := fh_content f; fh_pos := off; fh_append := fh_append f |}.
+
+(* read(n): the next min(n, remaining) bytes; read(): the rest (n < 0 also means the rest) *)
+Definition fh_read (f : fh) (n : option Z) : fh * bytes :=
+  let rest := skipn (Z.to_nat (fh_pos f)) (fh_content f) in
+  let got := match n with
+             | None => rest
+             | Some k => if k <? 0 then rest else firstn (Z.to_nat k) rest
+             end in
+  ({| fh_content := fh_content f; fh_pos := fh_pos f + zlen got; fh_append := fh_append f |}, got).
+
+(* write(buf) at the position (at the end in append mode), overwriting / extending; positions past the end
+   are zero-filled *)
+Definition fh_write (f : fh) (buf : bytes) : fh :=
+  let d := fh_content f in
+  let p := if fh_append f then zlen d else fh_pos f in
+  let before := firstn (Z.to_nat p) d ++ repeat 0 (Z.to_nat p - length d) in
+  let after := skipn (Z.to_nat p + length buf) d in
+  {| fh_content := before ++ buf ++ after; fh_pos := p + zlen buf; fh_append := fh_append f |}.
+
 (* ---------------- reference: an in-memory byte stream (io.BytesIO) ---------- *)
 (* Written as the simplest specification: data, a position, a closed flag;
    read returns the next min(n, remaining) bytes and advances by what it returned. *)
